@@ -893,7 +893,12 @@ func (e *CEnv) eval(ex ast.Expr) TV {
 			case bref:
 				eq = e.eqRef(a.V, b.V.(RefV))
 			default:
-				eq = x.equal(a.V, b.V)
+				if _, isS := a.V.(StructV); isS {
+					// records are compared by content: slice-typed fields by length and elements
+					eq = x.equal(x.seqify(e.state(), a.V), x.seqify(e.state(), b.V))
+				} else {
+					eq = x.equal(a.V, b.V)
+				}
 			}
 			if n.Op == token.NEQ {
 				eq = Not(eq)
